@@ -25,11 +25,23 @@ pub fn for_harness(name: &str, vals: &[Vec<u8>]) -> Option<bool> {
         "h_arch::configure_nr_pow2range_any" | "h_arch::pow2range_configure_column_count" => Some(sc::vk_read_with_nr_pow2range_cols(le(&vals[0]) as u8)),
         // values: buf[0..18] one per byte, len; nr_pow2range_cols is byte 15
         "h_arch::arch_read_total" => Some(sc::vk_read_with_nr_pow2range_cols(vals[15][0])),
-        // values: buf[0..BUF], len; k is byte 1
-        "h_vk_read::vk_read_total" => Some(sc::vk_read_with_k(vals[1][0])),
+        // (h_vk_read::vk_read_total has no level 2: its k byte is relative to the toy field's 2-adicity;
+        //  level 1 runs the real generic reader and the real EvaluationDomain::new at the toy field)
         // values: n
         "h_zkir::into_bytes_offcircuit_native" => Some(sc::zkir_into_bytes_native_offcircuit(le(&vals[0]) as usize)),
         "h_batch::batch_verify_no_keys" => Some(sc::batch_verify_empty()),
+        // C17: the same comparison on a real key (BLS12-381 / KZG)
+        "h_roundtrip::vk_bytes_length_processed" => Some(crate::scenarios17::vk_bytes_length_real("processed")),
+        "h_roundtrip::vk_bytes_length_rawbytes" => Some(crate::scenarios17::vk_bytes_length_real("rawbytes")),
+        // C17 round trips: the real-key round trip is run for information; level 1 decides
+        "h_roundtrip::vk_read_then_write_processed" | "h_roundtrip::vk_write_then_read_processed" => {
+            println!("level 2 (informational): real-key round trip shows a mismatch = {}", crate::scenarios17::vk_roundtrip_real("processed"));
+            None
+        }
+        "h_roundtrip::vk_read_then_write_rawbytes" | "h_roundtrip::vk_write_then_read_rawbytes" | "h_roundtrip::vk_transcript_binds_written_rawbytes" => {
+            println!("level 2 (informational): real-key round trip shows a mismatch = {}", crate::scenarios17::vk_roundtrip_real("rawbytes"));
+            None
+        }
         _ => None,
     }
 }
@@ -47,6 +59,9 @@ pub fn run(args: &[String]) -> bool {
         "zkir-into-bytes-native" => sc::zkir_into_bytes_native_offcircuit(n(1) as usize),
         "g1-decode-offsubgroup" => sc::g1_decoder_accepts_outside_subgroup(args.get(1).map(|s| s.as_str()).unwrap_or("hashable")),
         "zkir-mod-exp" => sc::zkir_mod_exp_offcircuit(n(1), n(2), n(3)),
+        "vk-bytes-length" => crate::scenarios17::vk_bytes_length_real(args.get(1).map(|s| s.as_str()).unwrap_or("rawbytes")),
+        "pk-bytes-length" => crate::scenarios17::pk_bytes_length_and_roundtrip_real(args.get(1).map(|s| s.as_str()).unwrap_or("rawbytes")),
+        "vk-roundtrip" => crate::scenarios17::vk_roundtrip_real(args.get(1).map(|s| s.as_str()).unwrap_or("rawbytes")),
         _ => {
             println!("unknown scenario");
             false
